@@ -605,7 +605,15 @@ pub fn op_strategy(sp: OpSpace) -> BoxedStrategy<Op> {
     let partial = (path, prop_oneof![1 => Just(None), 2 => any::<u16>().prop_map(Some)], slack, mask).prop_map(|(path, frac, slack_out, mask)| Op::Partial { path, frac, slack_out, mask });
     let ratio = (prop_oneof![1 => Just(-1.0f64), 1 => Just(1.0f64), 4 => -1.0f64..=1.0], any::<bool>(), any::<bool>()).prop_map(|(pos, relative, ramp)| Op::SetRatio { pos, relative, ramp });
     let chunk = prop_oneof![1 => Just(0u16), 1 => Just(65535u16), 3 => any::<u16>()].prop_map(|frac| Op::SetChunk { frac });
+    // setter calls that must be rejected (out of range / zero / too large) and leave everything unchanged
+    let rejected = prop_oneof![
+        (prop_oneof![Just(0.0f64), Just(-1.0f64), Just(1e-300f64), Just(1e300f64)], any::<bool>(), any::<bool>()).prop_map(|(value, relative, ramp)| Op::SetRatioRaw { value, relative, ramp }),
+        prop_oneof![Just(0usize), Just(usize::MAX), Just(1usize << 40)].prop_map(|size| Op::SetChunkRaw { size }),
+    ];
     let mut v: Vec<(u32, BoxedStrategy<Op>)> = vec![(10, process.boxed())];
+    if sp.ratio && sp.chunk {
+        v.push((1, rejected.boxed()));
+    }
     if sp.partial {
         v.push((2, partial.boxed()));
     }
